@@ -722,6 +722,11 @@ impl<'a> Run<'a> {
                         let children = build_children(u, &st["sh"], &mut next, &self.bind)?;
                         let cid = tx["cid"].as_u64().unwrap();
                         ops.push((0, Operation::InsertTree(u.tkey(t["k"].as_u64().unwrap()), NewNode { data: u.root_data(cid), children })));
+                        // the same transaction dereferences another tree (insert the new state, prune an old one)
+                        let dk = t["dk"].as_u64().unwrap_or(0);
+                        if dk != 0 {
+                            ops.push((0, Operation::DereferenceTree(u.tkey(dk))));
+                        }
                     },
                     "deref" => ops.push((0, Operation::DereferenceTree(u.tkey(t["k"].as_u64().unwrap())))),
                     "ref" => ops.push((0, Operation::ReferenceTree(u.tkey(t["k"].as_u64().unwrap())))),
